@@ -94,7 +94,7 @@ Deliver(r, b, from) ==
     /\ Stale /\ UNCHANGED <<adj, has, adding, rq, larr, sess>>
 
 Cancel(r) ==
-    /\ Open(r) /\ ~rq[r].canc
+    /\ Open(r)                      \* cancelling twice, or after the session was cancelled, changes nothing
     /\ rq' = [rq EXCEPT ![r].canc = TRUE]
     /\ Stale /\ UNCHANGED <<adj, has, adding, delivered, larr, sess>>
 
